@@ -22,8 +22,11 @@ use crate::rrdpsrv::{self, Server};
 use crate::util;
 
 #[derive(Clone, Copy, Debug, Eq, PartialEq)]
-pub enum Fault { Unreachable, NotifyGarbage, ArchiveCorrupt, ObjectsGarbage, StaleManifests, MissingManifest, SnapshotGarbage }
-const FAULTS: [Fault; 7] = [Fault::Unreachable, Fault::NotifyGarbage, Fault::ArchiveCorrupt, Fault::ObjectsGarbage, Fault::StaleManifests, Fault::MissingManifest, Fault::SnapshotGarbage];
+pub enum Fault { Unreachable, NotifyGarbage, ArchiveCorrupt, ObjectsGarbage, StaleManifests, MissingManifest, SnapshotGarbage, TooDeep }
+const FAULTS: [Fault; 8] = [Fault::Unreachable, Fault::NotifyGarbage, Fault::ArchiveCorrupt, Fault::ObjectsGarbage, Fault::StaleManifests, Fault::MissingManifest, Fault::SnapshotGarbage, Fault::TooDeep];
+
+/// The CA depth limit of every run (the TA is level 0).
+const MAX_DEPTH: usize = 3;
 
 #[derive(Clone, Debug)]
 pub struct CaseSpec { b_rrdp: bool, c_rrdp: bool, in_b: bool, fault: Fault, policy: FilterPolicy, threads: usize }
@@ -34,14 +37,21 @@ fn hosts(idx: usize) -> (String, String, String) {
 
 fn tree(idx: usize, c: &CaseSpec, with_fault: bool) -> TreeSpec {
     let (ha, hb, hc) = hosts(idx);
+    // Address space: besides 10/8, CA1 holds 2001:db8::/32 and CA2 the
+    // IPv4 host route made of the same leading 32 bits (32.1.13.184), and
+    // vice versa with 2001:db9::/32 - disjoint resources that only a
+    // confusion of the two address families makes overlap.
     let mut ta = CaSpec::new("ta0", 0, &ha, "repo");
-    ta.v4 = vec![(Ipv4Addr::new(10, 0, 0, 0), 8)];
+    ta.v4 = vec![(Ipv4Addr::new(10, 0, 0, 0), 8), (Ipv4Addr::new(32, 1, 13, 0), 24)];
+    ta.v6 = vec![("2001:db8::".parse().unwrap(), 31)];
     ta.asns = vec![(64496, 64600)];
     ta.objs = vec![ObjSpec::roa("rta", 64496, "10.0.0.0", 16, 16)];
     let mut ca1 = CaSpec::new("ca1", 1, &hb, "repo");
-    ca1.v4 = vec![(Ipv4Addr::new(10, 1, 0, 0), 16)];
+    ca1.v4 = vec![(Ipv4Addr::new(10, 1, 0, 0), 16), (Ipv4Addr::new(32, 1, 13, 185), 32)];
+    ca1.v6 = vec![("2001:db8::".parse().unwrap(), 32)];
     ca1.asns = vec![(64500, 64509)];
-    ca1.objs = vec![ObjSpec::roa("r1", 64500, "10.1.0.0", 20, 24)];
+    ca1.objs = vec![ObjSpec::roa("r1", 64500, "10.1.0.0", 20, 24), ObjSpec::roa("r1m", 64501, "32.1.13.185", 32, 32),
+        ObjSpec::roa("r1v6", 64502, "2001:db8::", 32, 48)];
     if c.b_rrdp { ca1.rpki_notify = Some(format!("https://{hb}/r/notification.xml")); }
     let mut ca1c = CaSpec::new("ca1c", 2, &hb, "repo");
     ca1c.v4 = vec![(Ipv4Addr::new(10, 1, 128, 0), 17)];
@@ -49,13 +59,32 @@ fn tree(idx: usize, c: &CaseSpec, with_fault: bool) -> TreeSpec {
     ca1c.objs = vec![ObjSpec::roa("r1c", 64505, "10.1.128.0", 24, 24)];
     ca1c.rpki_notify = ca1.rpki_notify.clone();
     let mut ca2 = CaSpec::new("ca2", 3, &hc, "repo");
-    ca2.v4 = vec![(Ipv4Addr::new(10, 2, 0, 0), 16)];
+    ca2.v4 = vec![(Ipv4Addr::new(10, 2, 0, 0), 16), (Ipv4Addr::new(32, 1, 13, 184), 32)];
+    ca2.v6 = vec![("2001:db9::".parse().unwrap(), 32)];
     ca2.asns = vec![(64510, 64519)];
-    ca2.objs = vec![ObjSpec::roa("r2", 64510, "10.2.0.0", 16, 16), ObjSpec::roa("r2b", 64511, "10.2.3.0", 24, 24)];
+    ca2.objs = vec![ObjSpec::roa("r2", 64510, "10.2.0.0", 16, 16), ObjSpec::roa("r2b", 64511, "10.2.3.0", 24, 24),
+        ObjSpec::roa("r2m", 64512, "32.1.13.184", 32, 32), ObjSpec::roa("r2v6", 64513, "2001:db9::", 32, 48)];
     if c.c_rrdp { ca2.rpki_notify = Some(format!("https://{hc}/r/notification.xml")); }
     if with_fault {
         let pf = match c.fault { Fault::StaleManifests => Some(PointFault::MftStale), Fault::MissingManifest => Some(PointFault::NoManifest), _ => None };
         if c.in_b { ca1.point_fault = pf; ca1c.point_fault = pf; } else { ca2.point_fault = pf; }
+        if c.fault == Fault::TooDeep {
+            // the faulty repository publishes a chain of further, otherwise
+            // valid CAs that runs past the depth limit
+            let (host, notify, a, b, parent_level) = if c.in_b { (&hb, ca1c.rpki_notify.clone(), 10u8, 1u8, 2) } else { (&hc, ca2.rpki_notify.clone(), 10, 2, 1) };
+            let mut chain: Option<CaSpec> = None;
+            for k in (1..=3usize).rev() {
+                let mut d = CaSpec::new(&format!("deep{k}"), 3 + k, host, "repo");
+                d.v4 = vec![(Ipv4Addr::new(a, b, 200, 0), 24)];
+                d.asns = vec![(if c.in_b { 64505 } else { 64519 }, if c.in_b { 64505 } else { 64519 })];
+                d.objs = vec![ObjSpec::roa(&format!("rdeep{k}"), if c.in_b { 64505 } else { 64519 }, &format!("{a}.{b}.200.{}", k * 16), 28, 28)];
+                d.rpki_notify = notify.clone();
+                if let Some(child) = chain.take() { d.children.push(child); }
+                chain = Some(d);
+            }
+            let _ = parent_level;
+            if c.in_b { ca1c.children.push(chain.unwrap()); } else { ca2.children.push(chain.unwrap()); }
+        }
     }
     ca1.children.push(ca1c);
     ta.children.push(ca1);
@@ -98,6 +127,7 @@ fn run_case(gen: &Gen, dir: std::path::PathBuf, idx: usize, c: &CaseSpec) -> Res
     config.disable_rrdp = false;
     config.unsafe_vrps = c.policy;
     config.validation_threads = c.threads;
+    config.max_ca_depth = MAX_DEPTH;
     let fhost = if c.in_b { hb.clone() } else { hc.clone() };
     let f_rrdp = if c.in_b { c.b_rrdp } else { c.c_rrdp };
     // transport state
@@ -176,14 +206,15 @@ fn run_case(gen: &Gen, dir: std::path::PathBuf, idx: usize, c: &CaseSpec) -> Res
             }
             publish(&img);
         }
-        Fault::StaleManifests | Fault::MissingManifest => publish(&faulty),
+        Fault::StaleManifests | Fault::MissingManifest | Fault::TooDeep => publish(&faulty),
     }
     let out = run_with_retry(&config).map_err(err)?;
     // CAs outside the faulty repository's subtree
     let unaffected: Vec<&str> = if c.in_b { vec!["ta0", "ca2"] } else { vec!["ta0", "ca1", "ca1c"] };
     let affected: Vec<&str> = if c.in_b { vec!["ca1", "ca1c"] } else { vec!["ca2"] };
     let want = origins_of(&clean, &unaffected);
-    let maybe = origins_of(&clean, &affected);
+    let mut maybe = origins_of(&clean, &affected);
+    maybe.extend(origins_of(&faulty, &["deep1", "deep2", "deep3"]));
     let got: BTreeSet<RouteOrigin> = out.data.origins.iter().copied().filter(|o| !maybe.contains(o)).collect();
     let fmt = |s: &BTreeSet<RouteOrigin>| s.iter().map(data::fmt_origin).collect::<Vec<_>>();
     if got != want {
@@ -232,12 +263,16 @@ pub fn run(ctx: &Ctx) -> Report {
         (both transports), notification file garbage, snapshot garbage, \
         RRDP archive file damaged on disk before an update, every object \
         replaced by garbage, stale manifests under reject, missing \
-        manifest} x unsafe-vrps {reject, accept} (thorough: x validation \
+        manifest, a CA chain running past max-ca-depth} x unsafe-vrps {reject, accept} (thorough: x validation \
         threads {1, 4}); oracle: the route origins of every CA outside the \
         faulty repository's subtree are exactly those of the fault-free \
         run, and the run succeeds (after at most the one documented \
         retry); the CAs' resources are disjoint so the unsafe filter has \
-        nothing to remove; non-trivial = all (every case carries a fault)".into();
+        nothing to remove - each of B and C also holds an IPv6 /32 while \
+        the other holds the IPv4 host route with the same leading 32 bits \
+        and a VRP for it, still disjoint; the depth limit is 3 and the \
+        fault 'too deep' adds three nested, otherwise valid CAs below the \
+        faulty repository's leaf CA; non-trivial = all (every case carries a fault)".into();
     rep.bound = format!("{} (arrangement, repository, fault, policy) cases", cases.len());
     let threads = std::env::var("ETREE_THREADS").ok().and_then(|s| s.parse().ok()).unwrap_or(8);
     let res = util::par_map(cases.len() as u64, threads, |i| {
